@@ -4,6 +4,11 @@ import json, os
 here = os.path.dirname(os.path.dirname(os.path.abspath(__file__)))
 ALL = ['C%02d' % i for i in range(1, 21)]
 CLAIMED = {
+ 'C19': dict(
+   text='Theorems over the Gallina models of the response tail (Content-Encoding declared iff compression on, body >= threshold and offered, choosing the first offered gzip/deflate token; body = compressed original exactly when declared; undoing the declared encoding and UTF-8 returns the payload) and of the JSONP form: for every payload text and index the body parses, under a transcription of the ECMAScript string-literal grammar, as exactly one ___eio[i]("lit"); statement whose literal evaluates to the payload in UTF-16 - proved for all inputs with json.dumps string escaping modelled exactly, no axioms; compared with both servers on every run.',
+   note='Trusted: Coq kernel; hand-written models Transform.v/Jsonp.v and their differential run; gzip/zlib/UTF-8 are oracles (hypotheses of c19_lossless), undone with the real libraries in the harness; q-values are ignored as the code does.',
+   technique='Coq proof (induction over the payload, hex/UTF-16 arithmetic by lia, finite sweeps) + model/implementation correspondence by vm_compute',
+   ref='5 C19'),
  'C13': dict(
    text='Theorems over the Gallina model of the origin policy (the gate is the first step of request handling: a refused origin returns the refusal with the server state untouched whatever the rest of handling is; exactly when it refuses; the allowed set of each configuration form incl. the forwarded-header rule; Access-Control-Allow-Origin only for the request\'s own allowed Origin and at most once; Allow-Credentials iff enabled; empty allow-list = no check and no CORS header) for all inputs, no axioms; model compared with both servers on the configuration x environment x request-kind product on every run, with before/after state snapshots.',
    note='Trusted: Coq kernel; hand-written model Cors.v and its differential run through the real WSGIApp/ASGIApp; header values restricted to latin-1; callable policies represented by their accepted set; empty Origin read as absent.',
@@ -25,7 +30,8 @@ CLAIMED = {
    technique='Coq proof (lia + finite vm_compute sweeps lifted by forallb_forall) + model/implementation correspondence by vm_compute',
    ref='5 C17, Appendix E'),
 }
-FIXES = ['d92cdd4 fix: do not reuse the cached encoding of a binary packet across channel kinds', 'bfaf151 fix: keep deeply nested bracket text as text instead of raising RecursionError']
+FIXES = ['d92cdd4 fix: do not reuse the cached encoding of a binary packet across channel kinds', 'bfaf151 fix: keep deeply nested bracket text as text instead of raising RecursionError',
+         '49abbb1 fix: escape the JSONP payload as a JavaScript string literal']
 PENDING_REASON = 'model and theorems for this property are not built yet in this revision of /verif (work in progress, see DESIGN.md section 9); not a statement that the technique cannot apply'
 m = {
  'version': 1,
